@@ -16,6 +16,8 @@
 package c16
 
 import (
+	_ "embed"
+	"encoding/json"
 	"fmt"
 	"net/netip"
 	"os"
@@ -217,6 +219,11 @@ func escapePath(p string, mode int) string {
 	for i := 0; i < len(p); i++ {
 		ch := p[i]
 		must := ch <= ' ' || ch >= 0x7f || ch == '%' || ch == '?' || ch == '#' || ch == '\\' || ch == '"' || ch == '<' || ch == '>' || ch == '^' || ch == '`' || ch == '{' || ch == '|' || ch == '}'
+		if mode == 6 {
+			// A sloppy client: only what would change the meaning of the
+			// request target is escaped.
+			must = ch == '%' || ch == '?' || ch == '#'
+		}
 		extra := false
 		switch mode {
 		case 1:
@@ -284,7 +291,7 @@ func genPath(t *rapid.T) string {
 	}
 	mode := 0
 	if rapid.IntRange(0, 3).Draw(t, "path_escape") == 0 {
-		mode = rapid.IntRange(1, 5).Draw(t, "path_escape_mode")
+		mode = rapid.IntRange(1, 6).Draw(t, "path_escape_mode")
 	}
 	return escapePath(p, mode)
 }
@@ -691,7 +698,7 @@ type runner struct {
 	filterOff map[string]bool
 	// refIDs: identifiers some request of the case legitimately named.
 	refIDs map[string]bool
-	// preReconf: identifiers attributed before the latest reconfiguration.
+	// preReconf: identifiers requests named before the latest reconfiguration.
 	preReconf map[string]bool
 	attributed map[string]bool
 	reconfs   int
@@ -737,6 +744,9 @@ func (r *runner) prepare(rq *Req) (*inflight, error) {
 	f.ref = reference(r.sc, rq, f.p.DecodedPath)
 	for _, id := range f.ref.ids {
 		r.refIDs[id] = true
+	}
+	if f.ref.idFromPath != "" {
+		r.refIDs[f.ref.idFromPath] = true
 	}
 	return f, nil
 }
@@ -803,7 +813,7 @@ func (r *runner) judge(tag string, f *inflight) error {
 	}
 	fail := func(class, format string, args ...any) error {
 		v := kernel.Violationf(class, "%s [%s] server_name=%q strict=%v allowed=%s: %s", tag, desc, r.sc.ServerName, r.sc.Strict, ref, fmt.Sprintf(format, args...))
-		if c.Tolerate(v) {
+		if c.Tolerate(v) || replayTolerates[class] {
 			c.Eventf("%s tolerated known finding %s", tag, class)
 			return nil
 		}
@@ -862,6 +872,10 @@ func (r *runner) judge(tag string, f *inflight) error {
 	var id string
 	if len(logs) == 1 {
 		id = logs[0].ClientID
+		if id != "" {
+			// Whatever the verdict on it, the server now holds this identifier.
+			r.attributed[id] = true
+		}
 		if logs[0].ClientIP != ip {
 			return fail("wrong-client-address", "query log has client address %s, request came from %s", logs[0].ClientIP, ip)
 		}
@@ -890,6 +904,20 @@ func (r *runner) judge(tag string, f *inflight) error {
 		// The upstream failed, so nothing was logged; the only trace of the
 		// attribution is which settings were applied.
 		c.Probe("upstream_failed_unlogged")
+		if len(ref.ids) == 0 && !ref.none {
+			// Processed although failure is the only allowed outcome.
+			switch {
+			case ref.why == "strict-foreign-name" && ref.idFromPath != "":
+				return fail("strict-sni-bypassed-by-doh-path", "strict server-name checking is on and the server name is outside the configured domain, yet the request was accepted and forwarded (path names ClientID %q)", ref.idFromPath)
+			case ref.why == "strict-foreign-name":
+				return fail("strict-sni-not-rejected", "strict server-name checking is on and the server name is outside the configured domain, yet the request was forwarded")
+			case ref.why == "invalid-label":
+				return fail("invalid-clientid-accepted", "the identifier is not a valid host-name label, yet the request was forwarded")
+			case ref.why == "extra-path-segments":
+				return fail("malformed-path-accepted", "the path has extra segments, yet the request was forwarded")
+			}
+			return fail("malformed-not-rejected", "forwarded although the statement demands failure")
+		}
 		if rq.Blocked {
 			// Forwarded although the name is blocked globally: only a client
 			// with filtering off explains it, and the reference must allow one.
@@ -982,6 +1010,10 @@ func (r *runner) apply(i int, op *Op) error {
 		for id := range r.attributed {
 			r.preReconf[id] = true
 		}
+		for id := range r.refIDs {
+			// Also requests whose attribution left no record (upstream failed).
+			r.preReconf[id] = true
+		}
 		if err := r.n.ReconfigureNoListen(); err != nil {
 			return err
 		}
@@ -1048,6 +1080,38 @@ func (r *runner) apply(i int, op *Op) error {
 	}
 	return fmt.Errorf("harness: unknown op %q", op.Kind)
 }
+
+//go:embed known_findings.jsonl
+var knownFindings string
+
+// replayTolerates: the driver's replay mode does not tell the kernel which
+// classes are listed findings, so a scenario that meets a listed finding before
+// its own violation would replay as the listed one.  When replaying a file, the
+// listed classes other than the file's own are therefore tolerated here, as
+// they were during exploration.
+var replayTolerates = func() map[string]bool {
+	m := map[string]bool{}
+	path := os.Getenv("VERIF_REPLAY")
+	if path == "" || os.Getenv("VERIF_KNOWN") != "" {
+		return m
+	}
+	var rf struct {
+		Class string `json:"class"`
+	}
+	if b, err := os.ReadFile(path); err == nil {
+		_ = json.Unmarshal(b, &rf)
+	}
+	for _, line := range strings.Split(knownFindings, "\n") {
+		var k struct {
+			Property string `json:"property"`
+			Class    string `json:"class"`
+		}
+		if json.Unmarshal([]byte(line), &k) == nil && k.Property == "C16" && k.Class != "" && k.Class != rf.Class {
+			m[k.Class] = true
+		}
+	}
+	return m
+}()
 
 // Run executes one scenario.
 func Run(t *testing.T, scAny any, c *kernel.Ctx) error {
@@ -1129,7 +1193,7 @@ var Prop = &kernel.Property{
 	},
 	FaultKinds: []string{"upstream_error", "upstream_servfail", "upstream_slow", "burst_in_flight", "out_of_order_handling", "reconfigure"},
 	ProbeNames: []string{"id_attributed", "id_settings_applied", "id_from_sni", "id_from_sni_doh", "id_from_path", "id_from_host_header", "id_both_sources", "processed_without_id",
-		"rejected", "rejected_servfail", "rejected_other_rcode", "rejected_without_reply", "rejected_invalid_label", "rejected_extra_segments", "rejected_strict_foreign",
+		"rejected", "rejected_servfail", "rejected_invalid_label", "rejected_extra_segments", "rejected_strict_foreign",
 		"open_configured_name_case", "open_deeper_subdomain", "open_empty_label_name", "open_noncanonical_path", "open_not_a_doh_path", "open_strict_empty_name", "open_strict_without_configured_name", "open_path_and_name_both_name_ids", "open_malformed_host_header", "open_point_processed",
 		"http_400_before_handler", "upstream_failed_unlogged", "burst_33_or_more"},
 }
